@@ -1,6 +1,9 @@
 import Mieru.Proofs.C08
+import Mieru.Proofs.C08Handshake
 import Mieru.Proofs.C09
+import Mieru.Proofs.C09LE
 import Mieru.Gen.Consts
+import Mieru.Gen.FactsC08
 /-!
 # C08 — clocks within one minute agree on keys; stale segments are refused; cached key
 # material is never used for another slot
@@ -9,6 +12,21 @@ Models: `Mieru.Model.Time` (Go's `Time.Round` on integer nanoseconds, `cipherKey
 `saltFromTime`, the minute counter, `mathext.Mid/WithinRange`), `Mieru.Model.KeyCache`
 (`getCachedCiphers`, `StatelessDecryptor.tryDecryptAt` over an abstract `derive : slot → keys`).
 Instants `t` and skews `d` are integer nanoseconds; 60 s = 60000000000 ns.
+
+`Mieru.Model.Handshake` composes these with the documented framing of `Mieru.Spec` into the Go receiver's
+first-contact path (`recvFirstTcp`, `recvFirstUdp`) with its three instants: key instant `tk`
+(`Mux.newUnderlay`), stamp instant `ts` (`Marshal`), receiver instant `tr`.
+
+SCOPE of "a segment … whose key was derived for an instant four or more minutes away is never accepted":
+the clause is about key SELECTION for a connection that has no key yet — the first segment of a TCP
+direction client→server, a UDP datagram that belongs to no existing session (`recvFirstTcp`,
+`recvFirstUdp`, `stale_key_not_parsed`, `recv_first_sound`).  An established TCP connection and an
+existing UDP session keep the key they settled on for life and never consult the clock for keys again
+(`established_session_ignores_candidates`, `established_session_accepts_original_key`; the harness shows
+the real stateful cipher accepting its original key at an instant hours later): from then on only the
+±1-minute stamp guards staleness.  The server→client direction derives no key at all (it answers under
+the key the client's first segment opened with), so the three-candidate shape is client→server only.
+Bounds: keys agree up to 120 s between key instant and receiver clock (sharp); stamps up to 60 s (sharp).
 
 Domain notes (stated, not hidden):
 * The slot theorems hold for ALL integer instants (also before 1970).
@@ -21,7 +39,7 @@ Domain notes (stated, not hidden):
   `minuteU32_eq` says the counter equals it for instants before that.
 -/
 namespace Mieru.C08
-open Mieru.Time Mieru.KeyCache
+open Mieru.Time Mieru.KeyCache Mieru.Handshake
 
 /-- Tie (T): the slot length the model uses is the one compiled from the current source
     (`lean/Mieru/Gen/Consts.lean` is regenerated from the repository on every run).  The cache
@@ -103,52 +121,189 @@ theorem minuteU32_eq (t : Int) (ht : 0 ≤ t) (hw : t < 257698037760000000000) :
   Mieru.Proofs.C08.minuteU32_eq t ht hw
 
 /-- **Cached key material is never used for another slot.**  For every history of cache
-    lookups and `tryDecryptAt` calls — arbitrary (also decreasing) instants, arbitrary jitter
-    draws, any validity interval, starting from any state whose entries were produced by the cache itself — the entry
-    used by each operation carries exactly the keys derived for the slot of that operation's
-    instant. -/
+    lookups and `tryDecryptAt` calls of ANY NUMBER of decryptors sharing the password — arbitrary (also
+    decreasing) wall-clock instants, arbitrary monotonic readings (also disagreeing with the wall clock, as
+    after a clock step), arbitrary jitter draws, any validity interval, starting from any state whose
+    entries were produced by the cache itself — the entry used by each operation carries exactly the
+    keys derived for the slot of that operation's wall-clock instant. -/
 theorem cache_never_crosses_slots {K : Type} (validNs : Int) (derive : Int → K) (s : State K)
     (hs : Mieru.Proofs.C08.StateOk derive s) (ops : List Op) :
-    ∀ p ∈ run validNs derive s ops, p.2.epoch = epoch p.1 ∧ p.2.keys = derive (epoch p.1) :=
+    ∀ p ∈ run validNs derive s ops, p.2.epoch = epoch p.1.wall ∧ p.2.keys = derive (epoch p.1.wall) :=
   Mieru.Proofs.C08.run_ok validNs derive s hs ops
 
 /-- …in particular from the empty cache of a fresh process. -/
 theorem cache_never_crosses_slots_from_empty {K : Type} (validNs : Int) (derive : Int → K) (ops : List Op) :
-    ∀ p ∈ run validNs derive State.empty ops, p.2.epoch = epoch p.1 ∧ p.2.keys = derive (epoch p.1) :=
+    ∀ p ∈ run validNs derive State.empty ops, p.2.epoch = epoch p.1.wall ∧ p.2.keys = derive (epoch p.1.wall) :=
   cache_never_crosses_slots validNs derive State.empty Mieru.Proofs.C08.empty_ok ops
 
-/-- **Handshake key under skew.**  Whatever the cache went through before, a receiver whose
-    clock is within 60 s of the sender's tries a key list that contains the key of the sender's
-    current slot (keys indexed by the slot they are derived for). -/
+/-- …and for CONCURRENT histories (`ConcRun`): goroutines interleave between an operation's Load and
+    its Store, every Load of the `sync.Map` slot or of a decryptor's `atomic.Pointer` returns an
+    arbitrary previously stored entry (not necessarily the latest).  Still every operation uses the
+    keys derived for the slot of its own instant, and nothing inconsistent is ever stored. -/
+theorem cache_never_crosses_slots_concurrent {K : Type} (validNs : Int) (derive : Int → K)
+    (pool : List (Entry K)) (used : List (Instant × Entry K)) (h : ConcRun validNs derive pool used) :
+    (∀ e ∈ pool, e.keys = derive e.epoch) ∧
+    ∀ p ∈ used, p.2.epoch = epoch p.1.wall ∧ p.2.keys = derive (epoch p.1.wall) :=
+  Mieru.Proofs.C08.conc_ok validNs derive pool used h
+
+/-- **Handshake key under skew.**  Whatever the cache and the decryptors went through before, a
+    receiver (any decryptor `dec`) whose wall clock is within 120 s of the instant the sender's key was
+    derived for tries a key list that contains that key (keys indexed by the slot they are derived for;
+    the monotonic reading `mono` of the receiver's instant is irrelevant). -/
 theorem handshake_key_under_skew (s : State (List Int)) (hs : Mieru.Proofs.C08.StateOk slotKeys s)
-    (validNs t d jitterMs : Int) (h1 : -60000000000 ≤ d) (h2 : d ≤ 60000000000) :
-    epoch t ∈ (tryEntry validNs slotKeys s (t + d) jitterMs).1.keys := by
-  have h := (Mieru.Proofs.C08.step_ok validNs slotKeys s hs (.tryDecrypt (t + d) jitterMs)).2.1
+    (dec : Nat) (mono : Option Int)
+    (validNs t d jitterMs : Int) (h1 : -120000000000 ≤ d) (h2 : d ≤ 120000000000) :
+    epoch t ∈ (tryEntry validNs slotKeys s dec ⟨t + d, mono⟩ jitterMs).1.keys := by
+  have h := (Mieru.Proofs.C08.step_ok validNs slotKeys s hs (.tryDecrypt dec ⟨t + d, mono⟩ jitterMs)).2.1
   simp only [step, Op.now] at h
   rw [h]
-  have := slot_agreement t d h1 h2
+  have := Mieru.Proofs.C08.slot_agreement_120 t d h1 h2
   simp only [slotKeys, keyRefreshSec, List.mem_cons, List.not_mem_nil, or_false]
   omega
 
 /-- …and never the key of a slot derived four or more minutes away. -/
 theorem stale_key_never_tried (s : State (List Int)) (hs : Mieru.Proofs.C08.StateOk slotKeys s)
+    (dec : Nat) (mono : Option Int)
     (validNs t d jitterMs : Int) (h : d ≤ -240000000000 ∨ 240000000000 ≤ d) :
-    epoch t ∉ (tryEntry validNs slotKeys s (t + d) jitterMs).1.keys := by
-  have hk := (Mieru.Proofs.C08.step_ok validNs slotKeys s hs (.tryDecrypt (t + d) jitterMs)).2.1
+    epoch t ∉ (tryEntry validNs slotKeys s dec ⟨t + d, mono⟩ jitterMs).1.keys := by
+  have hk := (Mieru.Proofs.C08.step_ok validNs slotKeys s hs (.tryDecrypt dec ⟨t + d, mono⟩ jitterMs)).2.1
   simp only [step, Op.now] at hk
   rw [hk]
   have := Mieru.Proofs.C08.slot_far t d h
   simp only [slotKeys, keyRefreshSec, List.mem_cons, List.not_mem_nil, or_false]
   omega
 
-/-- **The handshake's first segment succeeds under skew.**  A sender at instant `t` seals the
-    first segment of a TCP direction with the key of its current slot and stamps its minute; a
-    receiver whose clock shows `t + d`, |d| ≤ 60 s, tries the keys of its three slots
-    (`saltFromTime` order) and checks the stamp against its own minute.  Then the receiver parses
-    exactly that segment and accepts its timestamp.  `keyOf` maps a slot to its key
-    (PBKDF2 of the slot's salt); the AEAD laws, the low-entropy law (types 10/11 only) and
-    "a different key does not authenticate the sender's first ciphertext" are hypotheses. -/
-theorem handshake_succeeds_under_skew (A : Spec.AeadFns) (hA : Spec.AeadLaws A) (hle : Spec.LELaw)
+/-! ## The true key bound (audit W1)
+
+The three-slot window tolerates 120 s of skew between the instant a key was derived for and the
+receiver's clock, not just 60 s: 60 s is the sharp bound for the MINUTE STAMP only. -/
+
+/-- Key instant and receiver instant at most 120 s apart: the key's slot is one of the three
+    slots the receiver tries. -/
+theorem slot_agreement_120 (t d : Int) (h1 : -120000000000 ≤ d) (h2 : d ≤ 120000000000) :
+    epoch t ∈ saltTimes (t + d) := by
+  have := Mieru.Proofs.C08.slot_agreement_120 t d h1 h2
+  rw [Mieru.Proofs.C08.mem_saltTimes]
+  omega
+
+/-- 120 s is sharp for keys: at 120 s + 1 ns the slots can be two apart. -/
+theorem slot_agreement_120_sharp :
+    ∃ t d : Int, d = 120000000001 ∧ epoch t ∉ saltTimes (t + d) ∧ epoch (t + d) ∉ saltTimes t :=
+  ⟨1700000099999999999, 120000000001, rfl, by decide, by decide⟩
+
+/-- 60 s is sharp for the minute stamp: at 60 s + 1 ns a stamp can be two minutes away. -/
+theorem minute_bound_60_sharp :
+    ∃ t d : Int, 0 ≤ t ∧ d = 60000000001 ∧ tsAccept (minute (t + d)) (minute t) = false :=
+  ⟨59999999999, 60000000001, by decide, rfl, by decide⟩
+
+/-! ## The timestamp theorems on the `uint32` counter the code compares (audit W5)
+
+`Unmarshal` compares `int64(uint32(time.Now().Unix() / 60))` with `int64(stamp)`; the theorems
+above are about `minute : Int → Int`.  For instants of the uint32 era (1970 … year 10136) the two
+coincide (`minuteU32_eq`), so: -/
+
+theorem timestamp_accepted_under_skew_u32 (ts tr : Int) (hts : 0 ≤ ts) (htr : 0 ≤ tr)
+    (hws : ts < 257698037760000000000) (hwr : tr < 257698037760000000000)
+    (h1 : -60000000000 ≤ tr - ts) (h2 : tr - ts ≤ 60000000000) :
+    tsAccept (minuteU32 tr : Int) (minuteU32 ts : Int) = true :=
+  Mieru.Proofs.C08.stamp_accept_u32 ts tr hts htr hws hwr h1 h2
+
+theorem timestamp_rejected_2min_u32 (ts tr : Int) (hts : 0 ≤ ts) (htr : 0 ≤ tr)
+    (hws : ts < 257698037760000000000) (hwr : tr < 257698037760000000000)
+    (h : tr - ts ≤ -120000000000 ∨ 120000000000 ≤ tr - ts) :
+    tsAccept (minuteU32 tr : Int) (minuteU32 ts : Int) = false :=
+  Mieru.Proofs.C08.stamp_reject_u32 ts tr hts htr hws hwr h
+
+/-! ## The handshake with its three instants (audit W1, W3)
+
+`Mieru.Model.Handshake`: the client fixes its key at `tk` (`Mux.newUnderlay`, before dialling), stamps
+the segment at `ts` (`Marshal`), the server reads it at `tr`.  The low-entropy law is no longer a
+hypothesis (`Mieru.Spec.leLaw`, from C17's theorems).  The only cryptographic hypothesis left is the
+key-commitment idealisation `hcommit`: another candidate key does not authenticate what the sender
+sealed under its first nonce. -/
+
+/-- Key part: |tr − tk| ≤ 120 s ⇒ the keyless receiver at `tr` finds the sender's key among its three
+    candidates and parses exactly the sender's first segment. -/
+theorem first_segment_key_found (A : Spec.AeadFns) (hA : Spec.AeadLaws A) (keyOf : Int → Bytes)
+    (tk tr : Int) (hk1 : -120000000000 ≤ tr - tk) (hk2 : tr - tk ≤ 120000000000)
+    (n0 : Bytes) (hn : n0.length = 24)
+    (hcommit : ∀ e ∈ saltTimes tr, keyOf e ≠ keyOf (epoch tk) →
+      ∀ p, A.openF (keyOf e) n0 (A.sealF (keyOf (epoch tk)) n0 p) = none)
+    (s : Spec.Segment) (hw : s.wf) (lePad : Bool) (bytes rest : Bytes) (t' : Spec.Tx)
+    (hs : sendFirstTcp A keyOf tk n0 s lePad = some (bytes, t')) :
+    Spec.parseOne A { Spec.Rx.new (candKeys keyOf tr) with buf := bytes ++ rest }
+      = .ok (keyOf (epoch tk)) s.md s.payload bytes.length t'.nonce := by
+  refine Spec.tcp_parse_one A hA Spec.leLaw ⟨keyOf (epoch tk), n0, false⟩ t' _ ?_ s hw lePad bytes rest hs rfl
+  left
+  have hmem : epoch tk ∈ saltTimes tr := by
+    have := slot_agreement_120 tk (tr - tk) hk1 hk2
+    have e : tk + (tr - tk) = tr := by omega
+    rwa [e] at this
+  refine ⟨rfl, rfl, hn, List.mem_map_of_mem hmem, ?_⟩
+  intro k hk hne p
+  simp only [Spec.Rx.new, candKeys, List.mem_map] at hk
+  obtain ⟨e, he, rfl⟩ := hk
+  exact hcommit e he hne p
+
+/-- **The handshake's first segment succeeds under skew — three instants.**  Key derived at `tk`,
+    segment stamped at `ts`, receiver clock `tr`; |tr − tk| ≤ 120 s and |tr − ts| ≤ 60 s (instants of
+    the uint32 era).  The Go receiver (`recvFirstTcp`: three slot keys of `tr`, documented framing,
+    `Unmarshal`'s timestamp rule at `tr`) accepts exactly the sender's segment under the sender's key.
+    This covers key derivation before the dial plus transit time: a client whose clock is within
+    60 s of the server's may take up to a minute between `newUnderlay` and the server's read. -/
+theorem handshake_succeeds_three_instants (A : Spec.AeadFns) (hA : Spec.AeadLaws A) (keyOf : Int → Bytes)
+    (tk ts tr : Int) (hts : 0 ≤ ts) (htr : 0 ≤ tr)
+    (hws : ts < 257698037760000000000) (hwr : tr < 257698037760000000000)
+    (hk1 : -120000000000 ≤ tr - tk) (hk2 : tr - tk ≤ 120000000000)
+    (hs1 : -60000000000 ≤ tr - ts) (hs2 : tr - ts ≤ 60000000000)
+    (n0 : Bytes) (hn : n0.length = 24)
+    (hcommit : ∀ e ∈ saltTimes tr, keyOf e ≠ keyOf (epoch tk) →
+      ∀ p, A.openF (keyOf e) n0 (A.sealF (keyOf (epoch tk)) n0 p) = none)
+    (s : Spec.Segment) (hw : s.wf) (hstamp : s.md.timestamp = minuteU32 ts) (lePad : Bool)
+    (bytes rest : Bytes) (t' : Spec.Tx)
+    (hs : sendFirstTcp A keyOf tk n0 s lePad = some (bytes, t')) :
+    recvFirstTcp A keyOf tr (bytes ++ rest)
+      = some ⟨keyOf (epoch tk), s.md, s.payload, bytes.length, t'.nonce⟩ := by
+  have hp := first_segment_key_found A hA keyOf tk tr hk1 hk2 n0 hn hcommit s hw lePad bytes rest t' hs
+  have hst : stampOk tr s.md = true := by
+    simp only [stampOk, hstamp]
+    exact timestamp_accepted_under_skew_u32 ts tr hts htr hws hwr hs1 hs2
+  simp only [recvFirstTcp, hp, hst, if_true]
+
+/-- The same for the first datagram of a UDP session (`recvFirstUdp`: `udpOpenCands` over the three
+    slot keys of `tr`, then the timestamp rule). -/
+theorem handshake_first_datagram_three_instants (A : Spec.AeadFns) (hA : Spec.AeadLaws A) (keyOf : Int → Bytes)
+    (tk ts tr : Int) (hts : 0 ≤ ts) (htr : 0 ≤ tr)
+    (hws : ts < 257698037760000000000) (hwr : tr < 257698037760000000000)
+    (hk1 : -120000000000 ≤ tr - tk) (hk2 : tr - tk ≤ 120000000000)
+    (hs1 : -60000000000 ≤ tr - ts) (hs2 : tr - ts ≤ 60000000000)
+    (nonce : Bytes) (hn : nonce.length = 24)
+    (s : Spec.Segment) (hw : s.wf) (hstamp : s.md.timestamp = minuteU32 ts) (lePad : Bool)
+    (hcommit : ∀ e ∈ saltTimes tr, keyOf e ≠ keyOf (epoch tk) →
+      A.openF (keyOf e) nonce (A.sealF (keyOf (epoch tk)) nonce s.md.encode) = none)
+    (d : Bytes) (hs : sendFirstUdp A keyOf tk nonce s lePad = some d) :
+    recvFirstUdp A keyOf tr d = some (keyOf (epoch tk), s.md, s.payload) := by
+  have hmem : epoch tk ∈ saltTimes tr := by
+    have := slot_agreement_120 tk (tr - tk) hk1 hk2
+    have e : tk + (tr - tk) = tr := by omega
+    rwa [e] at this
+  have hf := Spec.Srv.udpOpenCands_finds A hA Spec.leLaw (keyOf (epoch tk)) nonce hn s hw lePad d hs
+    (candKeys keyOf tr) (List.mem_map_of_mem hmem) (by
+      intro k hk hne
+      simp only [candKeys, List.mem_map] at hk
+      obtain ⟨e, he, rfl⟩ := hk
+      exact hcommit e he hne)
+  have hst : stampOk tr s.md = true := by
+    simp only [stampOk, hstamp]
+    exact timestamp_accepted_under_skew_u32 ts tr hts htr hws hwr hs1 hs2
+  simp only [recvFirstUdp, hf, hst, if_true]
+
+/-- **The handshake's first segment succeeds under skew** (round-1 statement, now a corollary of
+    the key part with `tk = ts = t`, `tr = t + d`, and without the low-entropy hypothesis).  A
+    sender at instant `t` seals the first segment of a TCP direction with the key of its current
+    slot and stamps its minute; a receiver whose clock shows `t + d`, |d| ≤ 60 s, tries the keys of
+    its three slots and checks the stamp against its own minute. -/
+theorem handshake_succeeds_under_skew (A : Spec.AeadFns) (hA : Spec.AeadLaws A)
     (keyOf : Int → Bytes) (t d : Int) (ht : 0 ≤ t) (htd : 0 ≤ t + d)
     (h1 : -60000000000 ≤ d) (h2 : d ≤ 60000000000) (n0 : Bytes) (hn : n0.length = 24)
     (hcommit : ∀ e ∈ saltTimes (t + d), keyOf e ≠ keyOf (epoch t) →
@@ -160,15 +315,269 @@ theorem handshake_succeeds_under_skew (A : Spec.AeadFns) (hA : Spec.AeadLaws A) 
       = .ok (keyOf (epoch t)) s.md s.payload bytes.length t'.nonce ∧
     tsAccept (minute (t + d)) s.md.timestamp = true := by
   constructor
-  · refine Spec.tcp_parse_one A hA hle ⟨keyOf (epoch t), n0, false⟩ t' _ ?_ s hw lePad bytes rest hs rfl
-    left
-    refine ⟨rfl, rfl, hn, List.mem_map_of_mem (slot_agreement_keys t d h1 h2), ?_⟩
-    intro k hk hne p
-    simp only [Spec.Rx.new, List.mem_map] at hk
-    obtain ⟨e, he, rfl⟩ := hk
-    exact hcommit e he hne p
+  · exact first_segment_key_found A hA keyOf t (t + d) (by omega) (by omega) n0 hn hcommit s hw lePad bytes rest t' hs
   · rw [hts]
     exact timestamp_accepted_under_skew t d ht htd h1 h2
+
+/-! ## "Never accepted", at the parse level (audit W2)
+
+`slot_reject_4min` / `stale_key_never_tried` say that the stale key's SLOT is not among the three the
+receiver tries.  That the segment is then REFUSED needs two idealisations of PBKDF2 / the AEAD, stated
+explicitly and only for the four slots involved: `hinj` — the stale slot's key is not, by collision,
+the key of one of the receiver's slots; `hcommit` — a different key does not authenticate what the
+sender sealed. -/
+
+/-- A first segment sealed with a key derived for an instant four or more minutes from the
+    receiver's clock is refused with the authentication error — whatever its stamp. -/
+theorem stale_key_not_parsed (A : Spec.AeadFns) (hA : Spec.AeadLaws A) (keyOf : Int → Bytes)
+    (tk tr : Int) (h : tr - tk ≤ -240000000000 ∨ 240000000000 ≤ tr - tk)
+    (hinj : ∀ e ∈ saltTimes tr, keyOf e = keyOf (epoch tk) → e = epoch tk)
+    (n0 : Bytes) (hn : n0.length = 24)
+    (hcommit : ∀ e ∈ saltTimes tr, keyOf e ≠ keyOf (epoch tk) →
+      ∀ p, A.openF (keyOf e) n0 (A.sealF (keyOf (epoch tk)) n0 p) = none)
+    (s : Spec.Segment) (lePad : Bool) (bytes rest : Bytes) (t' : Spec.Tx)
+    (hs : sendFirstTcp A keyOf tk n0 s lePad = some (bytes, t')) :
+    Spec.parseOne A { Spec.Rx.new (candKeys keyOf tr) with buf := bytes ++ rest } = .bad .auth ∧
+    recvFirstTcp A keyOf tr (bytes ++ rest) = none := by
+  obtain ⟨tl, rfl⟩ := Mieru.Proofs.C08.tcpSeal_first_shape A _ n0 s lePad bytes t' hs
+  have hm : (A.sealF (keyOf (epoch tk)) n0 s.md.encode).length = 48 := by rw [hA.seal_len, Spec.meta_len]
+  have hnot : epoch tk ∉ saltTimes tr := by
+    have := slot_reject_4min tk (tr - tk) h
+    have e : tk + (tr - tk) = tr := by omega
+    rwa [e] at this
+  have hp : Spec.parseOne A { Spec.Rx.new (candKeys keyOf tr) with
+      buf := n0 ++ (A.sealF (keyOf (epoch tk)) n0 s.md.encode ++ tl) ++ rest } = .bad .auth := by
+    have e : n0 ++ (A.sealF (keyOf (epoch tk)) n0 s.md.encode ++ tl) ++ rest
+        = n0 ++ (A.sealF (keyOf (epoch tk)) n0 s.md.encode ++ (tl ++ rest)) := by simp
+    rw [e]
+    apply Mieru.Proofs.C08.parseOne_no_key A _ n0 _ _ hn hm
+    intro k hk
+    simp only [candKeys, List.mem_map] at hk
+    obtain ⟨e', he', rfl⟩ := hk
+    have hne : keyOf e' ≠ keyOf (epoch tk) := fun heq => hnot (hinj e' he' heq ▸ he')
+    exact hcommit e' he' hne _
+  exact ⟨hp, by simp only [recvFirstTcp, hp]⟩
+
+/-- A first segment whose key IS in the window but whose stamp is two or more minutes from the
+    receiver's counter is not accepted (any stamp value, including 0 and 2^32 − 1). -/
+theorem stale_stamp_not_accepted (A : Spec.AeadFns) (hA : Spec.AeadLaws A) (keyOf : Int → Bytes)
+    (tk tr : Int) (hk1 : -120000000000 ≤ tr - tk) (hk2 : tr - tk ≤ 120000000000)
+    (n0 : Bytes) (hn : n0.length = 24)
+    (hcommit : ∀ e ∈ saltTimes tr, keyOf e ≠ keyOf (epoch tk) →
+      ∀ p, A.openF (keyOf e) n0 (A.sealF (keyOf (epoch tk)) n0 p) = none)
+    (s : Spec.Segment) (hw : s.wf)
+    (hstale : (minuteU32 tr : Int) - (s.md.timestamp : Int) ≥ 2 ∨ (s.md.timestamp : Int) - (minuteU32 tr : Int) ≥ 2)
+    (lePad : Bool) (bytes rest : Bytes) (t' : Spec.Tx)
+    (hs : sendFirstTcp A keyOf tk n0 s lePad = some (bytes, t')) :
+    recvFirstTcp A keyOf tr (bytes ++ rest) = none := by
+  have hp := first_segment_key_found A hA keyOf tk tr hk1 hk2 n0 hn hcommit s hw lePad bytes rest t' hs
+  have hst : stampOk tr s.md = false := minute_reject_2 _ _ hstale
+  simp only [recvFirstTcp, hp, hst]
+  rfl
+
+/-- …in particular a segment stamped at an instant two minutes or more from the receiver's clock. -/
+theorem stale_stamp_not_accepted_instants (A : Spec.AeadFns) (hA : Spec.AeadLaws A) (keyOf : Int → Bytes)
+    (tk ts tr : Int) (hts : 0 ≤ ts) (htr : 0 ≤ tr)
+    (hws : ts < 257698037760000000000) (hwr : tr < 257698037760000000000)
+    (hk1 : -120000000000 ≤ tr - tk) (hk2 : tr - tk ≤ 120000000000)
+    (hfar : tr - ts ≤ -120000000000 ∨ 120000000000 ≤ tr - ts)
+    (n0 : Bytes) (hn : n0.length = 24)
+    (hcommit : ∀ e ∈ saltTimes tr, keyOf e ≠ keyOf (epoch tk) →
+      ∀ p, A.openF (keyOf e) n0 (A.sealF (keyOf (epoch tk)) n0 p) = none)
+    (s : Spec.Segment) (hw : s.wf) (hstamp : s.md.timestamp = minuteU32 ts)
+    (lePad : Bool) (bytes rest : Bytes) (t' : Spec.Tx)
+    (hs : sendFirstTcp A keyOf tk n0 s lePad = some (bytes, t')) :
+    recvFirstTcp A keyOf tr (bytes ++ rest) = none := by
+  have hp := first_segment_key_found A hA keyOf tk tr hk1 hk2 n0 hn hcommit s hw lePad bytes rest t' hs
+  have hst : stampOk tr s.md = false := by
+    simp only [stampOk, hstamp]
+    exact timestamp_rejected_2min_u32 ts tr hts htr hws hwr hfar
+  simp only [recvFirstTcp, hp, hst]
+  rfl
+
+/-- **Soundness of the first-contact receiver, for ANY input bytes** (no cryptographic hypothesis):
+    whatever `recvFirstTcp` accepts at `tr` was opened by the key of one of the three slots of `tr`
+    and carries a stamp within one minute of the receiver's counter. -/
+theorem recv_first_sound (A : Spec.AeadFns) (keyOf : Int → Bytes) (tr : Int) (buf : Bytes)
+    (a : Accepted) (h : recvFirstTcp A keyOf tr buf = some a) :
+    (∃ e ∈ saltTimes tr, a.key = keyOf e) ∧
+    (minuteU32 tr : Int) - (a.md.timestamp : Int) ≤ 1 ∧ (a.md.timestamp : Int) - (minuteU32 tr : Int) ≤ 1 := by
+  simp only [recvFirstTcp] at h
+  split at h
+  · rename_i k md p n nn hp
+    split at h
+    · rename_i hst
+      simp only [Option.some.injEq] at h
+      subst h
+      have hk := Mieru.Proofs.C08.parseOne_ok_key A _ rfl k md p n nn hp
+      simp only [Spec.Rx.new, candKeys, List.mem_map] at hk
+      obtain ⟨e, he, rfl⟩ := hk
+      refine ⟨⟨e, he, rfl⟩, ?_⟩
+      have := (withinRange_iff _ _ 1 (by omega)).mp hst
+      show (minuteU32 tr : Int) - (md.timestamp : Int) ≤ 1 ∧ (md.timestamp : Int) - (minuteU32 tr : Int) ≤ 1
+      omega
+    · cases h
+  · cases h
+
+/-! ## Scope of the four-minute clause: key SELECTION for a connection without a key
+
+The receiver consults its clock for keys only while `Rx.key = none` (first TCP segment of a
+direction, UDP datagram of no existing session).  Afterwards the key is fixed: -/
+
+/-- an established direction never looks at the candidate keys again (no clock enters) -/
+theorem established_session_ignores_candidates (A : Spec.AeadFns) (r : Spec.Rx) (k : Bytes)
+    (hk : r.key = some k) (cands' : List Bytes) :
+    Spec.parseOne A { r with cands := cands' } = Spec.parseOne A r := by
+  simp only [Spec.parseOne, hk]
+
+/-- …and keeps accepting segments sealed under its original key — ANY key, also one derived for an
+    instant hours before `tr` — as long as the stamp is fresh.  (Documented behaviour of TCP
+    connections and UDP sessions; the four-minute clause of C08 is about first contact.) -/
+theorem established_session_accepts_original_key (A : Spec.AeadFns) (hA : Spec.AeadLaws A)
+    (t t' : Spec.Tx) (r : Spec.Rx) (hst : t.started = true) (hk : r.key = some t.key) (hnr : r.nonce = t.nonce)
+    (ts tr : Int) (hts : 0 ≤ ts) (htr : 0 ≤ tr)
+    (hws : ts < 257698037760000000000) (hwr : tr < 257698037760000000000)
+    (hs1 : -60000000000 ≤ tr - ts) (hs2 : tr - ts ≤ 60000000000)
+    (s : Spec.Segment) (hw : s.wf) (hstamp : s.md.timestamp = minuteU32 ts) (lePad : Bool)
+    (bytes rest : Bytes) (hs : Spec.tcpSeal A t s lePad = some (bytes, t')) (hbuf : r.buf = bytes ++ rest) :
+    recvLaterTcp A r tr = some ⟨t.key, s.md, s.payload, bytes.length, t'.nonce⟩ := by
+  have hp := Spec.tcp_parse_one A hA Spec.leLaw t t' r (Or.inr ⟨hst, hk, hnr⟩) s hw lePad bytes rest hs hbuf
+  have hok : stampOk tr s.md = true := by
+    simp only [stampOk, hstamp]
+    exact timestamp_accepted_under_skew_u32 ts tr hts htr hws hwr hs1 hs2
+  simp only [recvLaterTcp, hp, hok, if_true]
+
+/-! ## Tie (T): the model equals the definitions REGENERATED from the Go source
+
+`lean/Mieru/Gen/FactsC08.lean` is rewritten on every run by `tools/goextract/c08facts.go` from the working
+tree: `cipherKeyEpoch`, `saltFromTime`, the expiry test of `getCachedCiphers`, the refetch test of
+`tryDecryptAt`, the minute counter and the timestamp test of both `Unmarshal` functions (and the stamp of
+both `Marshal` functions), `mathext.Mid` and `mathext.WithinRange` are translated expression by expression
+over a fixed vocabulary for `time.Time`.  The theorems below say the hand-written model IS that
+translation, so a source change (Round → Truncate or a truncating division, `!=` → `<`, `Before` → `After`,
+margin 1 → 2, a dropped `int64` conversion, a reordered / dropped slot offset, a different minute unit …)
+breaks a proof obligation at build time, in addition to the correspondence run.  What is not an
+expression (which list is ranged over, which index the sender takes, what is hashed, which fields the stored
+entry gets) is pinned by `decide` on facts read off the AST. -/
+
+/-- a model instant in the generated vocabulary -/
+def goTime (t : Instant) : Mieru.Gen.FactsC08.GoTime := ⟨t.wall, t.mono⟩
+
+/-- `cipherKeyEpoch` as written in pkg/cipher/api.go is the model's `epoch` (wall clock only). -/
+theorem epoch_eq_gen (t : Int) (m : Option Int) : epoch t = Mieru.Gen.FactsC08.cipherKeyEpoch ⟨t, m⟩ := rfl
+
+/-- `saltFromTime` as written in pkg/cipher/keygen.go hashes exactly the model's three slot times, in
+    the model's order (previous, current, next). -/
+theorem saltTimes_eq_gen (t : Int) (m : Option Int) :
+    saltTimes t = Mieru.Gen.FactsC08.saltFromTime_times ⟨t, m⟩ := by
+  simp only [saltTimes, epoch, unixSec, slotNs, roundTo, keyRefreshNs, keyRefreshSec, nsPerSec,
+    Mieru.Gen.FactsC08.saltFromTime_times, Mieru.Gen.FactsC08.GoTime.round, Mieru.Gen.FactsC08.GoTime.add,
+    Mieru.Gen.FactsC08.GoTime.unix, Mieru.Gen.keyRefreshIntervalNs, List.map_cons, List.map_nil]
+  have key : ∀ x : Int, [x / 1000000000 - 120, x / 1000000000, x / 1000000000 + 120]
+      = [(x + -120000000000) / 1000000000, x / 1000000000, (x + 120000000000) / 1000000000] := by
+    intro x
+    simp only [List.cons.injEq, and_true, true_and]
+    constructor <;> omega
+  exact key _
+
+/-- `mathext.Mid`, translated statement by statement, is the model's `mid`. -/
+theorem mid_eq_gen (a b c : Int) : mid a b c = Mieru.Gen.FactsC08.mid a b c := by
+  simp only [mid, Mieru.Gen.FactsC08.mid]
+  split <;> split <;> (try split) <;> (try split) <;> simp_all <;> omega
+
+/-- `mathext.WithinRange` is the model's `withinRange`. -/
+theorem withinRange_eq_gen (v t m : Int) : withinRange v t m = Mieru.Gen.FactsC08.withinRange v t m := by
+  simp only [withinRange, Mieru.Gen.FactsC08.withinRange, mid_eq_gen]
+  by_cases h : Mieru.Gen.FactsC08.mid v (t - m) (t + m) = v <;> simp [h]
+
+/-- The expiry test of `getCachedCiphers` as written in pkg/cipher/cache.go (with the validity interval
+    compiled from the source, jitter = the drawn milliseconds) is the model's `expired`: epoch compared
+    with `!=`, age compared with `Before` on `createTime.Add(cacheValidInterval - jitter)`. -/
+theorem expired_eq_gen {K : Type} (e : Entry K) (now : Instant) (j : Int) :
+    expired Mieru.Gen.cacheValidIntervalNs e now j ↔
+      Mieru.Gen.FactsC08.getCachedCiphers_expired false e.epoch (goTime e.createTime) (goTime now) j := by
+  simp only [expired, Mieru.Gen.FactsC08.getCachedCiphers_expired, goTime, ← epoch_eq_gen, Instant.add, Instant.before,
+    Mieru.Gen.FactsC08.GoTime.add, Mieru.Gen.FactsC08.GoTime.before]
+  cases e.createTime.mono <;> cases now.mono <;> simp
+
+/-- The refetch test of `tryDecryptAt` as written in pkg/cipher/api.go is the model's `refetch`
+    (`entry == nil || entry.epoch != cipherKeyEpoch(now)`), and `tryEntry` branches on exactly it. -/
+theorem refetch_eq_gen {K : Type} (held : Option (Entry K)) (now : Instant) :
+    refetch held now ↔
+      Mieru.Gen.FactsC08.tryDecryptAt_refetch held.isNone ((held.map (·.epoch)).getD 0) (goTime now) := by
+  cases held <;> simp [refetch, Mieru.Gen.FactsC08.tryDecryptAt_refetch, goTime, ← epoch_eq_gen]
+
+theorem tryEntry_branches_on_refetch {K : Type} (validNs : Int) (derive : Int → K) (s : State K) (dec : Nat)
+    (now : Instant) (j : Int) :
+    tryEntry validNs derive s dec now j =
+      if refetch (s.held dec) now then
+        ((getCached validNs derive s.cache now j).1,
+         ⟨(getCached validNs derive s.cache now j).2, setHeld s.held dec (getCached validNs derive s.cache now j).1⟩)
+      else ((s.held dec).getD (fresh derive now), s) :=
+  Mieru.Proofs.C08.tryEntry_refetch validNs derive s dec now j
+
+/-- The minute counter: `uint32(time.Now().Unix() / 60)` as written in both `Unmarshal` and both
+    `Marshal` functions of pkg/protocol/metadata.go is the model's `minuteU32`. -/
+theorem minuteU32_eq_gen (t : Int) (m : Option Int) :
+    (minuteU32 t : Int) = Mieru.Gen.FactsC08.sessionUnmarshal_currentTimestamp ⟨t, m⟩ ∧
+    (minuteU32 t : Int) = Mieru.Gen.FactsC08.dataAckUnmarshal_currentTimestamp ⟨t, m⟩ ∧
+    (minuteU32 t : Int) = Mieru.Gen.FactsC08.sessionMarshal_stamp ⟨t, m⟩ ∧
+    (minuteU32 t : Int) = Mieru.Gen.FactsC08.dataAckMarshal_stamp ⟨t, m⟩ := by
+  have h : (minuteU32 t : Int) = Int.tdiv (t / 1000000000) 60 % 4294967296 := by
+    simp only [minuteU32, minute, unixSec, nsPerSec]
+    exact Int.toNat_of_nonneg (Int.emod_nonneg _ (by decide))
+  exact ⟨h, h, h, h⟩
+
+/-- The timestamp test of both `Unmarshal` functions (`!mathext.WithinRange(int64(current),
+    int64(original), 1)` ⇒ error; the translator refuses operands that are not `int64` conversions, i.e.
+    the repaired uint32 wrap) is the negation of the model's `tsAccept`. -/
+theorem tsAccept_eq_gen (cur orig : Int) :
+    (tsAccept cur orig = true ↔ ¬ Mieru.Gen.FactsC08.sessionUnmarshal_tsReject cur orig) ∧
+    (tsAccept cur orig = true ↔ ¬ Mieru.Gen.FactsC08.dataAckUnmarshal_tsReject cur orig) := by
+  simp only [tsAccept, Mieru.Gen.FactsC08.sessionUnmarshal_tsReject, Mieru.Gen.FactsC08.dataAckUnmarshal_tsReject,
+    withinRange_eq_gen, Decidable.not_not, and_self]
+
+/-- What `saltFromTime` hashes: for every element of the list of times, in order, SHA-256 of the 8-byte
+    big-endian `uint64(t.Unix())`. -/
+theorem tie_salt_hashing :
+    Mieru.Gen.FactsC08.saltFromTime_hashing =
+      ["b := make([]byte, 8)", "for _, t := range times", "binary.BigEndian.PutUint64(b, uint64(t.Unix()))",
+       "sha := sha256.Sum256(b)", "salts = append(salts, sha[:])", "return salts"] := by decide
+
+/-- The cache entry: looked up and stored under the password, keys derived by
+    `newBlockCipherList(password, now)`, `createTime = now`, `epoch = cipherKeyEpoch(now)`; the jitter is
+    one draw of `mrand.Intn(cacheValidMaxJitterMs)`; the decryptor refills from `getCachedCiphers(d.password,
+    now)`, stores what it got and tries `entry.cipherList`. -/
+theorem tie_cache_effects :
+    Mieru.Gen.FactsC08.getCachedCiphers_draws = ["cacheValidMaxJitterMs"] ∧
+    Mieru.Gen.FactsC08.getCachedCiphers_effects =
+      ["call blockCipherCache.Load(password)", "return c.(*cachedCiphers)",
+       "call newBlockCipherList([]byte(password), now)", "return nil", "field cipherList: blockCiphers",
+       "field createTime: now", "field epoch: cipherKeyEpoch(now)", "call blockCipherCache.Store(password, entry)",
+       "return entry"] ∧
+    Mieru.Gen.FactsC08.tryDecryptAt_effects =
+      ["entry := d.ciphers.Load()", "refetch: getCachedCiphers(d.password, now)", "refetch: d.ciphers.Store(entry)",
+       "block, plaintext, err := selectDecryptStateless(ciphertext, dst, entry.cipherList)"] := by decide
+
+/-- Which keys: key `i` of a list is derived from `saltFromTime(now)[i]`, i = 0, 1, 2; the receiver tries
+    the WHOLE list in order, first success wins; the sender takes index 1 (the current slot). -/
+theorem tie_key_selection :
+    Mieru.Gen.FactsC08.newBlockCipherList_shape =
+      ["salts := saltFromTime(now)", "for i := 0; i < 3; i++", "Salt: salts[i]", "Iter: KeyIter"] ∧
+    Mieru.Gen.FactsC08.selectDecryptStateless_loop =
+      ["range blocks", "decrypted, err := block.DecryptStatelessTo(ciphertext, dst)", "if err != nil { continue }",
+       "return block, decrypted, nil"] ∧
+    Mieru.Gen.FactsC08.selectDecrypt_loop =
+      ["range blocks", "decrypted, err := block.Decrypt(data)", "if err != nil { continue }",
+       "return block, decrypted, nil"] ∧
+    Mieru.Gen.FactsC08.blockCipherFromPassword_key =
+      ["call getCachedCiphers(string(password), time.Now())", "index entry.cipherList[1]"] := by decide
+
+/-- The stamp both `Unmarshal` functions test is the big-endian uint32 at bytes 2..5. -/
+theorem tie_stamp_source :
+    Mieru.Gen.FactsC08.unmarshal_stamp_sources =
+      ["sessionStruct.Unmarshal: originalTimestamp := binary.BigEndian.Uint32(b[2:])",
+       "dataAckStruct.Unmarshal: originalTimestamp := binary.BigEndian.Uint32(b[2:])"] := by decide
 
 /-! ## Non-vacuity and regression examples -/
 
@@ -176,8 +585,13 @@ theorem handshake_succeeds_under_skew (A : Spec.AeadFns) (hA : Spec.AeadLaws A) 
 example : epoch 1700000099999999999 = 1700000040 ∧ epoch (1700000099999999999 + 60000000000) = 1700000160 := by decide
 example : epoch 1700000099999999999 ∈ saltTimes (1700000099999999999 + 60000000000) :=
   slot_agreement_keys _ _ (by decide) (by decide)
--- the bound 60 s is what the three-slot window gives in the worst phase: at 120 s + 1 ns it can fail
-example : epoch 1700000099999999999 ∉ saltTimes (1700000099999999999 + 180000000001) := by decide
+-- keys: the three-slot window tolerates up to 120 s (worst phase: 1 ns before a rounding tie) and fails at
+-- 120 s + 1 ns; 60 s is sharp for the minute stamp only (`slot_agreement_120_sharp`, `minute_bound_60_sharp`)
+example : epoch 1700000099999999999 ∈ saltTimes (1700000099999999999 + 120000000000) :=
+  slot_agreement_120 _ _ (by decide) (by decide)
+example : epoch 1700000099999999999 ∉ saltTimes (1700000099999999999 + 120000000001) := by decide
+example : tsAccept (minute (59999999999 + 60000000000)) (minute 59999999999) = true ∧
+    tsAccept (minute (59999999999 + 60000000001)) (minute 59999999999) = false := by decide
 -- minute counters: 59.999999999 s and +60 s straddle a tick
 example : minute 59999999999 = 0 ∧ minute (59999999999 + 60000000000) = 1 := by decide
 -- regression (fixed defect): on uint32 a stamp of 0 or 2^32−1 was accepted at any time …
@@ -185,10 +599,115 @@ example : tsAcceptU32 29836258 0 = true ∧ tsAcceptU32 29836258 4294967295 = tr
 -- … the int64 comparison rejects them
 example : tsAccept 29836258 0 = false ∧ tsAccept 29836258 4294967295 = false := by decide
 -- a state reached by the cache satisfies the invariant hypothesis
-example : Mieru.Proofs.C08.StateOk (fun e => e) (step cacheValidNs (fun e => e) State.empty (.tryDecrypt 5 0)).2 :=
+example : Mieru.Proofs.C08.StateOk (fun e => e) (step cacheValidNs (fun e => e) State.empty (.tryDecrypt 0 ⟨5, none⟩ 0)).2 :=
   (Mieru.Proofs.C08.step_ok _ _ _ Mieru.Proofs.C08.empty_ok _).2.2
 -- a history with a clock step backwards across a slot boundary
-example : (run cacheValidNs (fun e => e) State.empty [.lookup 61000000000 0, .tryDecrypt 59000000000 4999, .lookup 61000000001 0]).map
+example : (run cacheValidNs (fun e => e) State.empty
+      [.lookup ⟨61000000000, none⟩ 0, .tryDecrypt 0 ⟨59000000000, none⟩ 4999, .lookup ⟨61000000001, none⟩ 0]).map
     (fun p => (p.2.epoch, p.2.keys)) = [(120, 120), (0, 0), (120, 120)] := by decide
+-- two decryptors for one password: the second one picks up the cache entry the first one created; after the
+-- slot changes each refills on its own next use, never decrypting with the other slot's entry
+example : (run cacheValidNs (fun e => e) State.empty
+      [.tryDecrypt 0 ⟨61000000000, none⟩ 0, .tryDecrypt 1 ⟨62000000000, none⟩ 0, .tryDecrypt 1 ⟨181000000000, none⟩ 0,
+       .tryDecrypt 0 ⟨182000000000, none⟩ 0, .tryDecrypt 1 ⟨179000000000, none⟩ 0]).map
+    (fun p => (p.2.epoch, p.2.createTime.wall)) =
+      [(120, 61000000000), (120, 61000000000), (240, 181000000000), (240, 181000000000), (120, 179000000000)] := by decide
+-- a concurrent history (listed latest first): the second operation (another goroutine, instant in the NEXT slot)
+-- loaded the cache slot before the first one stored (it sees nothing); the third one sees the entry of the first
+example : ∃ pool used, ConcRun cacheValidNs (fun e : Int => e) pool used ∧
+    used.map (fun p => (p.1.wall, p.2.epoch, p.2.createTime.wall)) =
+      [(62000000000, 120, 61000000000), (181000000000, 240, 181000000000), (61000000000, 120, 61000000000)] := by
+  refine ⟨_, _, .op _ _ (some (step cacheValidNs (fun e : Int => e) ⟨none, fun _ => none⟩ (.lookup ⟨61000000000, none⟩ 0)).1) none
+      ?_ (by simp) (.lookup ⟨62000000000, none⟩ 0)
+      (.op _ _ none none (by simp) (by simp) (.tryDecrypt 0 ⟨181000000000, none⟩ 0)
+        (.op _ _ none none (by simp) (by simp) (.lookup ⟨61000000000, none⟩ 0) .nil)), ?_⟩
+  · intro e he
+    simp only [Option.some.injEq] at he
+    subst he
+    simp
+  · decide
+-- monotonic and wall clock disagree (wall clock stepped back by 39 s inside one slot): the AGE is taken from the
+-- monotonic readings (40 s > 30 s: refreshed), the SLOT from the wall clock (still 120) …
+example : (run cacheValidNs (fun e => e) State.empty
+      [.lookup ⟨100000000000, some 1000000000000⟩ 0, .lookup ⟨101000000000, some 1040000000000⟩ 0]).map
+    (fun p => (p.2.epoch, p.2.createTime.wall)) = [(120, 100000000000), (120, 101000000000)] := by decide
+-- … and a wall clock stepped FORWARD across a slot boundary while 1 s passed monotonically: age 1 s, but the slot
+-- test alone forces the refresh (this is what `cache_never_crosses_slots` rests on)
+example : (run cacheValidNs (fun e => e) State.empty
+      [.lookup ⟨100000000000, some 1000000000000⟩ 0, .lookup ⟨181000000000, some 1001000000000⟩ 0]).map
+    (fun p => (p.2.epoch, p.2.createTime.wall)) = [(120, 100000000000), (240, 181000000000)] := by decide
+
+
+/-! ### The handshake theorems applied to a concrete instance (joint satisfiability of their hypotheses)
+
+Toy AEAD of `Mieru.Proofs.C09` (tag = first 16 bytes of key ‖ nonce), one-byte keys indexed by the slot
+number, the data segment of the C09 examples stamped at `ts`.  Key derived 1 ns before a rounding tie
+(`tk`), segment stamped 60 s later (`ts`), receiver 119 s after the key instant (`tr`): the key's slot is
+the receiver's PREVIOUS slot, the stamp is one minute behind the receiver's counter. -/
+
+/-- keys of the toy instance: one byte, the slot number modulo 256 -/
+def toyKeyOf (e : Int) : Bytes := [UInt8.ofNat (e / 120 % 256).toNat]
+
+theorem toy_wrong_key (a b : UInt8) (h : a ≠ b) (n p : Bytes) :
+    Spec.toyAead.openF [a] n (Spec.toyAead.sealF [b] n p) = none := by
+  have hl : (Spec.toyTag [b] n).length = 16 := Spec.toyTag_len _ _
+  have h1 : p.length + 16 - 16 = p.length := by omega
+  have hne : Spec.toyTag [b] n ≠ Spec.toyTag [a] n := by
+    intro he
+    have := congrArg List.head? he
+    simp [Spec.toyTag] at this
+    exact h this.symm
+  simp only [Spec.toyAead, List.length_append, hl, h1, List.drop_left' rfl, hne, and_false, if_false]
+
+def toyTk : Int := 1700000099999999999
+def toyTs : Int := 1700000159999999999
+def toyTr : Int := 1700000218999999999
+def toyN0 : Bytes := List.replicate 24 7
+def toySeg : Spec.Segment :=
+  ⟨.data ⟨6, 28333335, 7, 1, 0, 256, 0, 2, 5, 3⟩, [1, 2, 3, 4, 5], [9, 9], [8, 8, 8]⟩
+
+theorem toyAead_laws : Spec.AeadLaws Spec.toyAead where
+  seal_len k n p := by simp [Spec.toyAead, Spec.toyTag_len]
+  open_seal k n p := by
+    simp only [Spec.toyAead, List.length_append, Spec.toyTag_len]
+    have h1 : p.length + 16 - 16 = p.length := by omega
+    rw [h1, List.drop_left' rfl, List.take_left' rfl]
+    simp
+
+theorem toy_commit (tr tk : Int) (n0 : Bytes) : ∀ e ∈ saltTimes tr, toyKeyOf e ≠ toyKeyOf (epoch tk) →
+    ∀ p, Spec.toyAead.openF (toyKeyOf e) n0 (Spec.toyAead.sealF (toyKeyOf (epoch tk)) n0 p) = none := by
+  intro e _ hne p
+  exact toy_wrong_key _ _ (fun h => hne (by simp only [toyKeyOf, h])) n0 p
+
+-- the instance: epoch tk = 1700000040 is the receiver's previous slot (epoch tr = 1700000160), the
+-- stamp 28333335 = minute ts is one behind the receiver's 28333336
+example : epoch toyTk = 1700000040 ∧ saltTimes toyTr = [1700000040, 1700000160, 1700000280] ∧
+    minuteU32 toyTs = 28333335 ∧ minuteU32 toyTr = 28333336 := by decide
+
+example : ∃ bytes t', sendFirstTcp Spec.toyAead toyKeyOf toyTk toyN0 toySeg false = some (bytes, t') ∧
+    ∀ rest, recvFirstTcp Spec.toyAead toyKeyOf toyTr (bytes ++ rest)
+      = some ⟨toyKeyOf 1700000040, toySeg.md, toySeg.payload, bytes.length, t'.nonce⟩ := by
+  have hsome : (sendFirstTcp Spec.toyAead toyKeyOf toyTk toyN0 toySeg false).isSome = true := by decide
+  obtain ⟨⟨bytes, t'⟩, h⟩ := Option.isSome_iff_exists.mp hsome
+  refine ⟨bytes, t', h, fun rest => ?_⟩
+  exact handshake_succeeds_three_instants Spec.toyAead toyAead_laws toyKeyOf toyTk toyTs toyTr
+    (by decide) (by decide) (by decide) (by decide) (by decide) (by decide) (by decide) (by decide)
+    toyN0 (by decide) (toy_commit toyTr toyTk toyN0) toySeg
+    ⟨by decide, by decide, by decide, by decide, by rfl⟩ (by decide) false bytes rest t' h
+
+-- the same sender, a receiver 240 s after the key instant: refused with the authentication error
+example : ∃ bytes t', sendFirstTcp Spec.toyAead toyKeyOf toyTk toyN0 toySeg false = some (bytes, t') ∧
+    ∀ rest, recvFirstTcp Spec.toyAead toyKeyOf (toyTk + 240000000000) (bytes ++ rest) = none := by
+  have hsome : (sendFirstTcp Spec.toyAead toyKeyOf toyTk toyN0 toySeg false).isSome = true := by decide
+  obtain ⟨⟨bytes, t'⟩, h⟩ := Option.isSome_iff_exists.mp hsome
+  refine ⟨bytes, t', h, fun rest => ?_⟩
+  refine (stale_key_not_parsed Spec.toyAead toyAead_laws toyKeyOf toyTk (toyTk + 240000000000) (Or.inr (by decide))
+    ?_ toyN0 (by decide) (toy_commit _ toyTk toyN0) toySeg false bytes rest t' h).2
+  decide
+
+-- the whole composition also runs: the receiver model accepts what the sender model produced
+example : (sendFirstTcp Spec.toyAead toyKeyOf toyTk toyN0 toySeg false).map
+      (fun r => (recvFirstTcp Spec.toyAead toyKeyOf toyTr r.1).map (·.payload)) = some (some [1, 2, 3, 4, 5]) := by
+  decide
 
 end Mieru.C08
